@@ -13,6 +13,7 @@ import (
 	"errors"
 	"fmt"
 	"math/rand"
+	"strings"
 	"sync"
 	"time"
 
@@ -445,6 +446,18 @@ func (n *Node) pay(ctx context.Context, request string, partial bool, amountMsat
 		amt := amountMsat
 		if !partial && inv.MilliSat != nil {
 			amt = uint64(*inv.MilliSat)
+		}
+		n.W.mu.Lock()
+		known := n.W.Invoices[hash]
+		n.W.mu.Unlock()
+		if known != nil && !strings.EqualFold(known.Bolt11, request) {
+			// somebody else's invoice that reuses the payment hash of a registered invoice:
+			// the payee cannot know the preimage, the payment fails definitively
+			n.W.mu.Lock()
+			n.W.PayCalls = append(n.W.PayCalls, PayCall{Node: n.Name, Hash: hash, Request: request, Partial: partial, AmountMsat: amt, MaxFeeSat: maxFee})
+			n.W.mu.Unlock()
+			res.PaymentStatus = lightning.Failed
+			return errors.New("payment failed: incorrect payment details")
 		}
 		n.mu.Lock()
 		plan := n.DefaultPay
